@@ -1,7 +1,7 @@
 SPECIFICATION Spec
-CONSTANTS MaxN = 3
-Coords <- C2
-CtrlCoords <- C2
+CONSTANTS MaxN = 2
+Coords <- C3
+CtrlCoords <- C3
 Letters <- LettersAll
 FixZ = TRUE
 FixDeg = TRUE
